@@ -344,7 +344,7 @@ pub fn run(tier: &str) -> i32 {
             let mut acc = Acc::default();
             let key = domains::key_pool(*p)[0].clone();
             let seed = if p.is_local() { domains::seeds(*p)[2].clone() } else { vec![] };
-            for q in [*p, Proto::V4L, Proto::V2P] {
+            for q in [*p, Proto::V4L, Proto::V2P].into_iter().filter(|q| q.enabled()) {
                 let qkey = domains::key_pool(q)[0].clone();
                 let qseed = if q.is_local() { domains::seeds(q)[1].clone() } else { vec![] };
                 let Out::Ok(inner) = adapter::core_issue(q, &qkey.sk, &qseed, "{\"sub\":\"actor\"}", None, None) else { continue };
